@@ -139,16 +139,32 @@ package storage
 //@   loop 1 invariant [unfold] rangeindex + 1 < len(ver.Outputs) ==> common.SumOut(ver.Outputs, rangeindex + 2) == common.SumOut(ver.Outputs, rangeindex + 1) + val(ver.Outputs[rangeindex + 1].Amount)
 //@   loop 1 invariant [running] val(total) == old(TotalOf(*txn, ver.Asset)) + common.SumOut(ver.Outputs, rangeindex + 1) && val(total) >= 0
 
+//@ -- ═════════ badger_transaction.go: readTransaction ═════════
+//@ -- ASSUMED (opaque), for two reasons. (1) The body has a latent crash: on a Get error other than ErrKeyNotFound `item` is nil and
+//@ -- item.ValueCopy dereferences it (DESIGN.md §6, outside the listed properties; on the WriteSnapshot path it happens before Commit,
+//@ -- so nothing is applied). The contract below describes the RETURNING executions, transcribed from the body. (2) [stored] is the store
+//@ -- invariant that a TRANSACTION/<h> entry holds the canonical encoding of a transaction that passed Validate before WriteTransaction
+//@ -- stored it (decoder postcondition DecodedTx: C06; Validate: C05/C01): see StoredTxOK.
+//@ uninterp TxValWf(v mathint) bool
+//@ func readTransaction
+//@   opaque
+//@   requires txn != nil
+//@   modifies nothing
+//@   ensures [absent] !HasTx(*txn, hash) ==> result0 == nil && err == nil
+//@   ensures [present] HasTx(*txn, hash) && err == nil ==> result0 != nil && fresh(result0) && allocated(result0)
+//@   ensures [stored] err == nil && result0 != nil ==> StoredTxOK(result0)
+//@   ensures [errors] err != nil ==> badger.iofail(err) || !TxValWf(badger.kvget(*txn, TK(hash)))
+
 //@ -- ═════════ badger_transaction.go: finalizeTransaction ═════════
 //@ spec SnapOK(snap *common.SnapshotWithTopologicalOrder) bool = snap != nil && snap.Snapshot != nil && snap.Version == common.SnapshotVersionCommonEncoding
 //@ -- StoredTxOK: the shape of a transaction read back from TRANSACTION/<h>: it came out of the decoder (non-nil elements, counts within
 //@ -- the decoder limits) and had passed Validate when it was stored (OnlySpecial; a withdrawal claim carries its reference), plus the
-//@ -- typing facts the engine needs (objects reachable from ver exist before the call; a *crypto.Key never points at the hash cache).
-//@ spec StoredTxOK(ver *common.VersionedTransaction) bool = TxShapeOK(ver) && len(ver.Outputs) <= common.SliceCountLimit && !fresh(ver.Outputs) && !fresh(ver.Inputs) &&
-//@     (forall j int :: {ver.Inputs[j]} 0 <= j && j < len(ver.Inputs) ==> !fresh(ver.Inputs[j])) &&
-//@     (forall a int :: {ver.Outputs[a]} 0 <= a && a < len(ver.Outputs) ==> !fresh(ver.Outputs[a]) && !fresh(ver.Outputs[a].Keys) &&
+//@ -- typing facts the engine needs (objects reachable from ver exist in the current state; a *crypto.Key never points at the hash cache).
+//@ spec StoredTxOK(ver *common.VersionedTransaction) bool = TxShapeOK(ver) && len(ver.Outputs) <= common.SliceCountLimit && allocated(ver.Outputs) && allocated(ver.Inputs) &&
+//@     (forall j int :: {ver.Inputs[j]} 0 <= j && j < len(ver.Inputs) ==> allocated(ver.Inputs[j])) &&
+//@     (forall a int :: {ver.Outputs[a]} 0 <= a && a < len(ver.Outputs) ==> allocated(ver.Outputs[a]) && allocated(ver.Outputs[a].Keys) &&
 //@         (ver.Outputs[a].Type == common.OutputTypeWithdrawalClaim ==> len(ver.References) >= 1) &&
-//@         forall i int :: {ver.Outputs[a].Keys[i]} 0 <= i && i < len(ver.Outputs[a].Keys) ==> ver.Outputs[a].Keys[i] != nil && !fresh(ver.Outputs[a].Keys[i]) && ver.Outputs[a].Keys[i] != &ver.hash)
+//@         forall i int :: {ver.Outputs[a].Keys[i]} 0 <= i && i < len(ver.Outputs[a].Keys) ==> ver.Outputs[a].Keys[i] != nil && allocated(ver.Outputs[a].Keys[i]) && ver.Outputs[a].Keys[i] != &ver.hash)
 //@ -- FinalizePre (C16): sufficient for "finalizeTransaction does not panic": every output type is known, the asset is known (or the
 //@ -- transaction is a deposit, which registers it), and the asset total admits the transaction.
 //@ spec FinalizePre(t badger.Txn, ver *common.VersionedTransaction) bool =
@@ -162,16 +178,88 @@ package storage
 //@   modifies *txn, ver.hash, ver.pmbytes
 //@   ensures [hash] ver.hash.HasValue() && (old(ver.hash.HasValue()) ==> ver.hash == old(ver.hash))
 //@   ensures [idempotent] let h == ver.hash in old(Finalized(*txn, h)) ==> *txn == old(*txn) && (err == nil || badger.iofail(err)) -- nothing is written, no output or total is re-applied; the only possible error is the store's own failure to read the record
-//@   ensures [fin-record] let h == ver.hash in !old(Finalized(*txn, h)) && err == nil ==> badger.kvget(*txn, FK(h)) == common.SnapId(snap.Snapshot)
+//@   ensures [fin-record] let h == ver.hash in !old(Finalized(*txn, h)) && err == nil ==> badger.kvget(*txn, FK(h)) == old(common.SnapId(snap.Snapshot))
 //@   ensures [finalized] err == nil ==> Finalized(*txn, ver.hash)
 //@   ensures [first-wins] forall k mathint :: {badger.kvget(*txn, k)} keykind(k) == 6 && old(badger.kvget(*txn, k)) != 0 ==> badger.kvget(*txn, k) == old(badger.kvget(*txn, k))
+//@   ensures [ghost-first] forall k mathint :: {badger.kvget(*txn, k)} keykind(k) == 2 && old(badger.kvget(*txn, k)) != 0 ==> badger.kvget(*txn, k) == old(badger.kvget(*txn, k)) -- an existing one-time-key binding is never overwritten (C04, through writeUTXO)
 //@   ensures [frame] let h == ver.hash in forall k mathint :: {badger.kvget(*txn, k)} badger.kvget(*txn, k) != old(badger.kvget(*txn, k)) ==>
 //@       k == FK(h) || k == AIK(ver.Asset) || k == ATK(ver.Asset) || keykind(k) == 2 || (keykind(k) == 1 && keyhid(k) == kvval(h)) || keykind(k) == 14 || keykind(k) == 15 || keykind(k) == 16
+//@   -- C17: the effect of ONE finalization on the recorded supply and on the set of outputs; nothing when the transaction was finalized before ([idempotent])
+//@   ensures [total-deposit] let h == ver.hash in !old(Finalized(*txn, h)) && err == nil && common.DepositShape(&ver.SignedTransaction.Transaction) ==> TotalOf(*txn, ver.Asset) == old(TotalOf(*txn, ver.Asset)) + val(ver.Inputs[0].Deposit.Amount)
+//@   ensures [total-mint] let h == ver.hash in !old(Finalized(*txn, h)) && err == nil && common.MintShape(&ver.SignedTransaction.Transaction) ==> TotalOf(*txn, ver.Asset) == old(TotalOf(*txn, ver.Asset)) + val(ver.Inputs[0].Mint.Amount)
+//@   ensures [total-genesis] let h == ver.hash in !old(Finalized(*txn, h)) && err == nil && common.GenesisShape(&ver.SignedTransaction.Transaction) ==> TotalOf(*txn, ver.Asset) == old(TotalOf(*txn, ver.Asset)) + common.SumOut(ver.Outputs, len(ver.Outputs))
+//@   ensures [total-submit] let h == ver.hash in !old(Finalized(*txn, h)) && err == nil && common.SubmitShape(&ver.SignedTransaction.Transaction) ==> TotalOf(*txn, ver.Asset) == old(TotalOf(*txn, ver.Asset)) - common.SumSubmit(ver.Outputs, len(ver.Outputs))
+//@   ensures [total-other] common.OtherShape(&ver.SignedTransaction.Transaction) ==> badger.kvget(*txn, ATK(ver.Asset)) == old(badger.kvget(*txn, ATK(ver.Asset)))
+//@   ensures [total-bounds] let h == ver.hash in !old(Finalized(*txn, h)) && err == nil ==> 0 <= TotalOf(*txn, ver.Asset) &&
+//@       (common.DepositShape(&ver.SignedTransaction.Transaction) || common.MintShape(&ver.SignedTransaction.Transaction) || common.GenesisShape(&ver.SignedTransaction.Transaction) || common.SubmitShape(&ver.SignedTransaction.Transaction) ==> TotalOf(*txn, ver.Asset) <= common.CapacityOf(ver.Asset))
+//@   ensures [outputs] let h == ver.hash in !old(Finalized(*txn, h)) && err == nil ==> forall i int :: 0 <= i && i < len(ver.Outputs) && common.Materialised(ver.Outputs[i].Type) ==> HasUtxo(*txn, h, i)
 //@   loop 0 invariant [hash] ver.hash.HasValue() && (old(ver.hash.HasValue()) ==> ver.hash == old(ver.hash))
+//@   loop 0 invariant [written] forall j int :: {rangeexpr[j]} 0 <= j && j <= rangeindex ==> HasUtxo(*txn, ver.hash, rangeexpr[j].Index)
+//@   loop 0 invariant [ordered] forall a, b int :: 0 <= a && a < b && b < len(rangeexpr) ==> rangeexpr[a].Index < rangeexpr[b].Index
+//@   loop 0 invariant [by-output] forall i int :: 0 <= i && i < len(ver.Outputs) && common.Materialised(ver.Outputs[i].Type) ==> exists j int :: 0 <= j && j < len(rangeexpr) && rangeexpr[j].Index == i
 //@   loop 0 invariant [shape] TxShapeOK(ver)
 //@   loop 0 invariant [utxos] forall j int :: {rangeexpr[j]} 0 <= j && j < len(rangeexpr) ==> fresh(rangeexpr[j]) && allocated(rangeexpr[j]) && common.UtxoOf(rangeexpr[j], ver)
+//@   loop 0 invariant [ghost-first] forall k mathint :: {badger.kvget(*txn, k)} keykind(k) == 2 && old(badger.kvget(*txn, k)) != 0 ==> badger.kvget(*txn, k) == old(badger.kvget(*txn, k))
 //@   loop 0 invariant [was-new] let h == ver.hash in old(badger.kvget(*txn, FK(h))) == 0
-//@   loop 0 invariant [fin] badger.kvget(*txn, FK(ver.hash)) == common.SnapId(snap.Snapshot) && badger.kvget(*txn, FK(ver.hash)) != 0
+//@   loop 0 invariant [fin] badger.kvget(*txn, FK(ver.hash)) == old(common.SnapId(snap.Snapshot)) && badger.kvget(*txn, FK(ver.hash)) != 0
 //@   loop 0 invariant [frame] let h == ver.hash in forall k mathint :: {badger.kvget(*txn, k)} badger.kvget(*txn, k) != old(badger.kvget(*txn, k)) ==>
 //@       k == FK(h) || k == AIK(ver.Asset) || keykind(k) == 2 || (keykind(k) == 1 && keyhid(k) == kvval(h)) || keykind(k) == 14 || keykind(k) == 15 || keykind(k) == 16
 //@   loop 0 invariant [info] (ver.Inputs[0].Deposit != nil ==> HasAssetInfo(*txn, ver.Asset)) && (ver.Inputs[0].Deposit == nil ==> badger.kvget(*txn, AIK(ver.Asset)) == old(badger.kvget(*txn, AIK(ver.Asset))))
+
+//@ -- ═════════ badger_topology.go / badger_work.go ═════════
+//@ -- writeTopology panics when the TOPOLOGY/<order> slot is taken (or cannot be read): the topological order is a unique cursor (C35's
+//@ -- subject). Under C15 a panic aborts the enclosing badger transaction before Commit. Hence `maypanic`.
+//@ func writeTopology
+//@   property C15
+//@   maypanic
+//@   requires txn != nil && SnapOK(snap)
+//@   modifies *txn
+//@   ensures [frame] forall k mathint :: {badger.kvget(*txn, k)} k != TopoKeyId(snap.TopologicalOrder) && k != SnapTopoKeyId(common.SnapId(snap.Snapshot)) ==> badger.kvget(*txn, k) == old(badger.kvget(*txn, k))
+//@   ensures [slot-free] old(badger.kvget(*txn, TopoKeyId(snap.TopologicalOrder))) == 0 -- on every returning execution the slot was free: an order is never reassigned
+//@   ensures [written] err == nil ==> badger.kvget(*txn, TopoKeyId(snap.TopologicalOrder)) == KeyAsVal(SnapKeyId(kvval(snap.NodeId), snap.RoundNumber, common.SnapId(snap.Snapshot))) &&
+//@       badger.kvget(*txn, SnapTopoKeyId(common.SnapId(snap.Snapshot))) == KeyAsVal(TopoKeyId(snap.TopologicalOrder))
+
+//@ func writeSnapshotWork
+//@   property C15
+//@   requires txn != nil && snap != nil && snap.Snapshot != nil
+//@   requires [signers] len(signers) < 144115188075855872 -- 2^57; fact of the language: n 32-byte elements occupy 32n bytes of an address space below 2^63, so n < 2^58 (the callers pass at most 64 signers: one per bit of the CoSi mask); above that (1+n)*32 wraps
+//@   modifies *txn
+//@   ensures [frame] forall k mathint :: {badger.kvget(*txn, k)} k != WorkSnapKeyId(kvval(snap.NodeId), snap.RoundNumber, snap.Timestamp) ==> badger.kvget(*txn, k) == old(badger.kvget(*txn, k))
+//@   ensures [written] err == nil ==> badger.kvget(*txn, WorkSnapKeyId(kvval(snap.NodeId), snap.RoundNumber, snap.Timestamp)) != 0
+//@   ensures [fail] err != nil ==> *txn == old(*txn)
+//@   loop 0 invariant [own] fresh(val) && len(val) == (1 + len(signers)) * 32
+//@   loop 0 invariant [key] fresh(key) && kvkey(key) == WorkSnapKeyId(kvval(snap.NodeId), snap.RoundNumber, snap.Timestamp) && arr(key) != arr(val)
+
+//@ -- ═════════ badger_graph.go: writeSnapshot / WriteSnapshot ═════════
+//@ -- SnapKeyOf / the effects of one snapshot on the view, by key kind. SnapChange(a, b, snap): how the view b may differ from a after
+//@ -- writeSnapshot(snap) (also on a failing execution, whose writes are discarded with the badger transaction):
+//@ --  * DEPOSIT, MINT slots and TRANSACTION bodies (kinds 3, 4, 5) and WORKSNAPSHOT records (11) are untouched;
+//@ --  * a FINALIZATION record (6) that exists is never changed (first finalization wins);
+//@ --  * UNIQUE records (7) change only for this snapshot's node; the only SNAPSHOT (8), TOPOLOGY (9), SNAPTOPO (10) keys that change are this snapshot's;
+//@ --  * a GHOST binding (2) that exists is never changed.
+//@ spec SnapKeyOf(snap *common.SnapshotWithTopologicalOrder) mathint = SnapKeyId(kvval(snap.NodeId), snap.RoundNumber, common.SnapId(snap.Snapshot))
+//@ spec SnapChange(a badger.Txn, b badger.Txn, node mathint, skey mathint, order mathint, sid mathint) bool =
+//@     (forall k mathint :: {badger.kvget(b, k)} keykind(k) == 3 || keykind(k) == 4 || keykind(k) == 5 || keykind(k) == 11 ==> badger.kvget(b, k) == badger.kvget(a, k)) &&
+//@     (forall k mathint :: {badger.kvget(b, k)} (keykind(k) == 6 || keykind(k) == 2) && badger.kvget(a, k) != 0 ==> badger.kvget(b, k) == badger.kvget(a, k)) &&
+//@     (forall k mathint :: {badger.kvget(b, k)} keykind(k) == 7 && keynode(k) != node ==> badger.kvget(b, k) == badger.kvget(a, k)) &&
+//@     (forall k mathint :: {badger.kvget(b, k)} keykind(k) == 8 && k != skey ==> badger.kvget(b, k) == badger.kvget(a, k)) &&
+//@     (forall k mathint :: {badger.kvget(b, k)} keykind(k) == 9 && k != TopoKeyId(order) ==> badger.kvget(b, k) == badger.kvget(a, k)) &&
+//@     (forall k mathint :: {badger.kvget(b, k)} keykind(k) == 10 && k != SnapTopoKeyId(sid) ==> badger.kvget(b, k) == badger.kvget(a, k))
+//@ -- VersionedMarshal of the snapshot with its topological order: the encoder is C07's subject. ASSUMED: it writes nothing visible and returns a new slice; it panics for an unknown version.
+//@ assume func (s *common.SnapshotWithTopologicalOrder) VersionedMarshal
+//@   requires s != nil && s.Snapshot != nil && s.Version == common.SnapshotVersionCommonEncoding
+//@   modifies nothing
+//@   ensures fresh(result)
+//@ func writeSnapshot
+//@   property C15
+//@   requires txn != nil && SnapOK(snap)
+//@   requires [stored] forall i int :: {snap.Transactions[i]} 0 <= i && i < len(snap.Transactions) ==> HasTx(*txn, snap.Transactions[i]) -- otherwise readTransaction returns nil and finalizeTransaction dereferences it; established by the Debug block of WriteSnapshot (which panics first) and, before that, by kernel.validateSnapshotTransaction
+//@   modifies *txn
+//@   ensures [change] SnapChange(old(*txn), *txn, kvval(snap.NodeId), SnapKeyOf(snap), snap.TopologicalOrder, common.SnapId(snap.Snapshot))
+//@   ensures [unique] err == nil ==> forall i int :: {snap.Transactions[i]} 0 <= i && i < len(snap.Transactions) ==> badger.kvget(*txn, QK(snap.NodeId, snap.Transactions[i])) != 0
+//@   ensures [snapshot] err == nil ==> badger.kvget(*txn, SnapKeyOf(snap)) != 0
+//@   ensures [topology] err == nil ==> badger.kvget(*txn, TopoKeyId(snap.TopologicalOrder)) == KeyAsVal(SnapKeyOf(snap)) && badger.kvget(*txn, SnapTopoKeyId(common.SnapId(snap.Snapshot))) == KeyAsVal(TopoKeyId(snap.TopologicalOrder)) &&
+//@       old(badger.kvget(*txn, TopoKeyId(snap.TopologicalOrder))) == 0
+//@   loop 0 invariant [change] SnapChange(old(*txn), *txn, kvval(snap.NodeId), SnapKeyOf(snap), snap.TopologicalOrder, common.SnapId(snap.Snapshot))
+//@   loop 0 invariant [untouched] forall k mathint :: {badger.kvget(*txn, k)} keykind(k) == 8 || keykind(k) == 9 || keykind(k) == 10 ==> badger.kvget(*txn, k) == old(badger.kvget(*txn, k))
+//@   loop 0 invariant [unique] forall j int :: {snap.Transactions[j]} 0 <= j && j <= rangeindex ==> badger.kvget(*txn, QK(snap.NodeId, snap.Transactions[j])) != 0
